@@ -2,7 +2,9 @@ package props
 
 import (
 	"fmt"
+	"html/template"
 	"reflect"
+	"sort"
 	"strings"
 
 	"verifmc/engine"
@@ -633,6 +635,11 @@ func c19Run(t *engine.T, shard string) {
 				lc{fmt.Sprintf("*string(%d)", n), &s, len(s)},
 			)
 		}
+		// named types, also ones that have a Len / Length / Size / String method of their own: still the Go length
+		nsl, nmp, nst, nar := c19LenSlice{1, 2, 3, 4, 5}, c19LenMap{"a": 1, "b": 2}, c19LenString("sixby!"), c19LenArray{1, 2, 3}
+		cases = append(cases, lc{"named slice with a Len method", nsl, 5}, lc{"pointer to a named slice with a Len method", &nsl, 5}, lc{"named map with a Len method", nmp, 2}, lc{"pointer to a named map with a Len method", &nmp, 2},
+			lc{"named string with Len and String methods", nst, 6}, lc{"pointer to a named string with a Len method", &nst, 6}, lc{"named array with a Len method", nar, 3}, lc{"pointer to a named array with a Len method", &nar, 3},
+			lc{"sort.StringSlice", sort.StringSlice{"a", "b"}, 2}, lc{"template.HTML", template.HTML("<b>"), 3}, lc{"named empty slice with a Len method", c19LenSlice{}, 0})
 		cases = append(cases, lc{"nil", nil, 0}, lc{"nil slice", []int(nil), 0}, lc{"nil map", map[string]int(nil), 0},
 			// Go's len of a nil pointer to an array is the array type's length; nil pointers to slices / maps / strings have length 0
 			lc{"nil *[3]int", (*[3]int)(nil), 3}, lc{"nil *[0]int", (*[0]int)(nil), 0}, lc{"nil *[]int", (*[]int)(nil), 0}, lc{"nil *map", (*map[string]int)(nil), 0}, lc{"nil *string", (*string)(nil), 0})
@@ -656,3 +663,22 @@ func c19Run(t *engine.T, shard string) {
 		}
 	}
 }
+
+type c19LenSlice []int
+
+func (c19LenSlice) Len() int    { return 2 }
+func (c19LenSlice) Length() int { return 7 }
+func (c19LenSlice) Size() int   { return 8 }
+
+type c19LenMap map[string]int
+
+func (c19LenMap) Len() int { return 9 }
+
+type c19LenString string
+
+func (c19LenString) Len() int       { return 5 }
+func (c19LenString) String() string { return "longer than six bytes" }
+
+type c19LenArray [3]int
+
+func (c19LenArray) Len() int { return 1 }
